@@ -76,6 +76,33 @@ Definition run_call_gen (m : mvrep) (root : str) (f : fs) (c : call) : fs * opti
 
 Definition run_call := run_call_gen MvBoth.
 
+(* ---------- tie T1 (tools/gen/sidefx.py -> Gen/SideFx.v) ----------
+   What the source does, as the extractor reads it: which paths each arm of Workspace::apply_patch pushes to
+   `changed_files` (r_upd_moved_src: the updated path of an operation that also moves, r_upd_moved_dst: the move
+   target), the sort + dedup before the result, the artifacts of the two tools, and the shape of
+   summarize_continuity_tool_side_effects (changed_files array first, else the path string, the auto checkpoint's
+   files only when neither is there, sort + dedup, nothing cut from the list). *)
+Record report_cfg := {
+  r_add : bool; r_del : bool; r_upd_plain : bool; r_upd_moved_src : bool; r_upd_moved_dst : bool; r_lib_sorted : bool;
+  r_tool_patch : bool; r_tool_write : bool;
+  r_sum_changed : bool; r_sum_path : bool; r_sum_ck_only_when_none : bool; r_sum_sorted : bool }.
+
+Definition report_wf (c : report_cfg) : bool :=
+  r_add c && r_del c && r_upd_plain c && r_upd_moved_src c && r_upd_moved_dst c && r_lib_sorted c
+  && r_tool_patch c && r_tool_write c
+  && r_sum_changed c && r_sum_path c && r_sum_ck_only_when_none c && r_sum_sorted c.
+
+Definition pushed_by (c : report_cfg) (o : op) : list (list N) :=
+  match o with
+  | Add p _ => if r_add c then [p] else []
+  | Del p => if r_del c then [p] else []
+  | Upd p None _ => if r_upd_plain c then [p] else []
+  | Upd p (Some q) _ => (if r_upd_moved_src c then [p] else []) ++ (if r_upd_moved_dst c then [q] else [])
+  end.
+Definition reported_by (c : report_cfg) (ops : list op) : list (list N) :=
+  let l := map normalize_rel (flat_map (pushed_by c) ops) in
+  if r_lib_sorted c then sort_dedup l else l.
+
 (* ---------- correspondence case: one mutating call of a thread-attached run ---------- *)
 Record fcase := {
   fc_root : str;                       (* the workspace root as the engine was given it *)
@@ -88,7 +115,7 @@ Definition frame_eqb : option (list str) -> option (list str) -> bool := option_
 
 Definition check_fx (c : fcase) : bool :=
   let '(f', fr) := run_call (fc_root c) (fc_fs c) (fc_call c) in
-  wf_fsb (fc_fs c) && sane_b (fc_fs c) && wf_fsb (fc_after c)
+  is_absolute (fc_root c) && wf_fsb (fc_fs c) && sane_b (fc_fs c) && wf_fsb (fc_after c)
   && frame_eqb fr (fc_frame c) && same_listing f' (fc_after c).
 
 Definition fx_obs (c : fcase) : list N :=
